@@ -130,6 +130,34 @@ Section Fetcher.
   Proof.
     intros orig ops d Hinj Hd. apply Hinj. eapply magnet_completes_only_verified. exact Hd.
   Qed.
+  (* the first-peer-metadata_size-wins mechanism (DownloadMain::set_metadata_size): once a size in
+     1..2^26 has been accepted, no later handshake, data or reject changes it. A first peer that lies
+     about the size therefore fixes a size for which no metadata with the requested hash exists:
+     safety is untouched (magnet_completes_only_verified), completion becomes impossible — an
+     observation about liveness, which C20 does not claim. *)
+  Lemma fstep_size_stable : forall s o n, f_size s = Some n -> f_size (fstep s o) = Some n.
+  Proof.
+    intros s o n Hs. unfold fstep. destruct (f_done s); [exact Hs|].
+    destruct o as [m|p b|p]; try exact Hs.
+    - rewrite Hs. exact Hs.
+    - rewrite Hs.
+      match goal with |- context [if ?c then _ else _] => destruct c end; [|exact Hs].
+      destruct (assemble _ _); [|reflexivity]. destruct (list_eq_dec _ _ _); reflexivity.
+  Qed.
+
+  Theorem first_size_wins : forall ops s n, f_size s = Some n -> f_size (fold_left fstep ops s) = Some n.
+  Proof.
+    induction ops as [|o r IH]; intros s n Hs; cbn [fold_left]; [exact Hs|].
+    apply IH. apply fstep_size_stable. exact Hs.
+  Qed.
+
+  Theorem first_size_accepted : forall want n, 0 < n -> n <= 67108864 ->
+    f_size (fstep (finit want) (FSize n)) = Some n.
+  Proof.
+    intros want n H1 H2. unfold fstep, finit. cbn.
+    assert ((n =? 0) = false) as -> by (apply N.eqb_neq; lia).
+    assert ((67108864 <? n) = false) as -> by (apply N.ltb_ge; lia). reflexivity.
+  Qed.
 End Fetcher.
 
 (* non-vacuity: with a toy "hash" an honest provider completes, a liar does not *)
